@@ -32,6 +32,9 @@ class Hist:
         self.mr = z3.Array(c.fresh_name(name + ".m"), I, R)
         self.mn = z3.Array(c.fresh_name(name + ".m?nan"), I, B)
         c.assume(self.len >= 0)
+        j = z3.Int("vcx_j")
+        for A in (self.fr, self.mr):      # every recorded value is a float: -inf <= value <= +inf (or NaN, flagged separately)
+            c.pc.append(z3.ForAll([j], z3.And(NINF <= A[j], A[j] <= PINF), patterns=[A[j]]))
         c.named[name] = self
 
     def _vcx_concretize(self, zm, val, cap):
